@@ -8,7 +8,40 @@ STR_DOM = ['', 'a', 'ab', 'b']
 CSTR_DOM = [None, '', 'a', 'ab', 'b']
 S_DOM = [(a, b) for a in range(3) for b in range(3)]
 PATTERNS = [('a', False), ('^a', False), ('b$', False), ('a.', False), ('[ab]b', False), ('a|b', False), ('^$', False),
-            ('ab*', False), ('A', True), ('A', False), ('^B', True), ('x', False)]
+            ('ab*', False), ('A', True), ('A', False), ('^B', True), ('x', False),
+            # match flags (the two-argument and the three-argument form of re()): they reach std::regex_search for every
+            # kind of string argument (seeded change C10-m8 dropped them for C strings)
+            ('^a', 'nb'), ('b$', 'ne'), ('^a$', 'nb'), ('^a$', 'ne'), ('b', 'mc'), ('a|b', 'mc'), ('^A', 'i+nb'), ('B$', 'i+ne'), ('a', 'nb'),
+            ('^$', 'nb'), ('^$', 'ne')]
+MATCH_FLAG = {'nb': 'match_not_bol', 'ne': 'match_not_eol', 'mc': 'match_continuous'}
+
+
+def re_cpp(pat, flags):
+    """the C++ spelling of re(pattern [, syntax flags] [, match flags])"""
+    esc = pat.replace('\\', '\\\\')
+    flags = 'i' if flags is True else (flags or '')
+    args = ['"%s"' % esc]
+    for f in flags.split('+'):
+        if f == 'i':
+            args.append('std::regex_constants::icase')
+        elif f:
+            args.append('std::regex_constants::' + MATCH_FLAG[f])
+    return 'trompeloeil::re(%s)' % ', '.join(args)
+
+
+def re_oracle(pat, flags, val):
+    """std::regex_search(val, regex(pat, syntax), match flags) on the pattern subset of PATTERNS (no escapes, no
+    anchors inside classes): match_not_bol / match_not_eol make `^` / `$` match nowhere (ECMAScript, no multiline),
+    match_continuous anchors the match at the first position"""
+    flags = 'i' if flags is True else (flags or '')
+    fl = flags.split('+')
+    if 'nb' in fl:
+        pat = pat.replace('^', '(?!)')
+    if 'ne' in fl:
+        pat = pat.replace('$', '(?!)')
+    rx = pyre.compile(pat, pyre.I if 'i' in fl else 0)
+    return bool(rx.match(val) if 'mc' in fl else rx.search(val))
+
 CMPS = ['eq', 'ne', 'lt', 'le', 'gt', 'ge']
 
 
@@ -77,10 +110,7 @@ class G:
         pat, icase = r.choice(PATTERNS)
         k = len(self.pats)
         self.pats.append((pat, icase))
-        esc = pat.replace('\\', '\\\\')
-        if icase:
-            return 'trompeloeil::re("%s", std::regex_constants::icase)' % esc, ['re', str(k)]
-        return 'trompeloeil::re("%s")' % esc, ['re', str(k)]
+        return re_cpp(pat, icase), ['re', str(k)]
 
     def comb(self, leaf, depth):
         r = self.r
@@ -161,7 +191,7 @@ def oracle(pats, val):
         if val is None:
             out.append('0')
         else:
-            out.append('1' if pyre.search(pat, val, pyre.I if icase else 0) else '0')
+            out.append('1' if re_oracle(pat, icase, val) else '0')
     return out
 
 
@@ -195,6 +225,15 @@ CORPUS = [
     ('sv', '!trompeloeil::re("ba")', ['not', 're', '0'], [('ba', False)]),
     ('ptr_raw', 'nullptr', ['val', 'pnull'], []),
     ('cstr', 'nullptr', ['val', 'cnull'], []),
+    # match flags on every kind of string argument (seeded change C10-m8)
+    ('cstr', re_cpp('^a', 'nb'), ['re', '0'], [('^a', 'nb')]),
+    ('cstr', re_cpp('b$', 'ne'), ['re', '0'], [('b$', 'ne')]),
+    ('cstr', '!' + re_cpp('b', 'mc'), ['not', 're', '0'], [('b', 'mc')]),
+    ('cstr', re_cpp('^A', 'i+nb'), ['re', '0'], [('^A', 'i+nb')]),
+    ('str', re_cpp('^a', 'nb'), ['re', '0'], [('^a', 'nb')]),
+    ('str', re_cpp('b$', 'ne'), ['re', '0'], [('b$', 'ne')]),
+    ('sv', re_cpp('b', 'mc'), ['re', '0'], [('b', 'mc')]),
+    ('sv', re_cpp('B$', 'i+ne'), ['re', '0'], [('B$', 'i+ne')]),
 ]
 
 TYPES = ['int', 'int', 'int', 'long', 'str', 'str', 'sv', 'cstr', 'ptr_raw', 'ptr_unique', 'ptr_shared', 'S']
